@@ -144,6 +144,21 @@ PROPERTIES["C05"] = dict(
     assumptions=[],
 )
 
+PROPERTIES["C15"] = dict(
+    units=["handler"],
+    technique="Verus contracts on the extracted real functions (limit-layer choice slice; collected-body capability in the upstream primitive's precondition)",
+    level_text="Deductive proof (Verus/Z3): the statements of the service closure that pick the body-limit layer (E5 slice, verbatim) choose "
+               "limit 104857600 iff should_skip_sig(method, uri) and 102400 otherwise (constants evaluated by Verus); on every path of "
+               "handle_request_with_signature / convert_request / handle_new_http_request a failed body collection is answered 400 and the "
+               "upstream write primitive is reachable only with the whole collected body (fwd_ok: orig.body == Some(bytes sent)).",
+    level_note="Assumed (dependency behaviour, tower_http::limit): a declared Content-Length above the layer's limit is answered 413 before "
+               "the service runs; a streamed body makes collect() fail once more than the limit arrives; a body of at most the limit passes "
+               "unchanged; ServiceBuilder::layer/clone preserve the limit. should_skip_sig's exact exemption list is decided in unit sign. "
+               "Not covered: the exact status for the chunked over-limit case is what the collect error maps to (400).",
+    design_ref="DESIGN.md section 3 C15",
+    assumptions=[],
+)
+
 NOT_APPLICABLE = {
     "C12": "secrecy over all outputs is a hyper-property (non-interference); no function contract expressible in Verus/Kani/CBMC here decides 'does not depend on the key' for format!/Display-built text, and a syntactic taint scan is a different family (DESIGN.md section 4)",
 }
